@@ -13,6 +13,11 @@
 (*   [r |-> "star", a]  [r |-> "plus", a]  [r |-> "opt", a]   (greedy)      *)
 (*   [r |-> "grp", a, g]         capturing group number g                   *)
 (*   [r |-> "bol"]  [r |-> "eol"]   ^ and $                                 *)
+(*   [r |-> "rep", a, lo, hi]    a{lo,hi} (greedy; hi = lo: a{lo})           *)
+(*   [r |-> "uc", c, neg]        class escapes \w \d \s \p{L} (c = "w", "d",  *)
+(*                               "s", "L") and their negations \W \D \S      *)
+(*                               \P{L}, decided for the code points of       *)
+(*                               KnownCps only                               *)
 (* M(r, s, i, caps): the sequence of ways r can match s starting at         *)
 (* position i, in the order a backtracking matcher tries them; each is      *)
 (* [e |-> position after the match, caps |-> captures so far].  The first   *)
@@ -29,7 +34,9 @@ Opt(a) == [r |-> "opt", a |-> a]
 Grp(a, g) == [r |-> "grp", a |-> a, g |-> g]
 
 \* ---- pattern text
-IsAtomLike(r) == r.r \in {"chr", "any", "cls", "rng", "grp"}
+IsAtomLike(r) == r.r \in {"chr", "any", "cls", "rng", "grp", "uc"}
+RECURSIVE DecDigits(_)
+DecDigits(n) == IF n < 10 THEN <<48 + n>> ELSE DecDigits(n \div 10) \o <<48 + (n % 10)>>
 RECURSIVE Render(_)
 Paren(r) == IF IsAtomLike(r) THEN Render(r) ELSE <<40, 63, 58>> \o Render(r) \o <<41>>       \* (?: ... )
 Special == {40, 41, 42, 43, 46, 63, 91, 92, 93, 94, 36, 123, 124, 125, 45}
@@ -46,12 +53,32 @@ Render(r) ==
     [] r.r = "grp" -> <<40>> \o Render(r.a) \o <<41>>
     [] r.r = "bol" -> <<94>>
     [] r.r = "eol" -> <<36>>
+    [] r.r = "rep" -> Paren(r.a) \o <<123>> \o DecDigits(r.lo) \o (IF r.hi = r.lo THEN <<>> ELSE <<44>> \o DecDigits(r.hi)) \o <<125>>
+    [] r.r = "uc" -> CASE r.c = "w" -> <<92, IF r.neg THEN 87 ELSE 119>>
+                       [] r.c = "d" -> <<92, IF r.neg THEN 68 ELSE 100>>
+                       [] r.c = "s" -> <<92, IF r.neg THEN 83 ELSE 115>>
+                       [] OTHER -> <<92, IF r.neg THEN 80 ELSE 112, 123, 76, 125>>          \* \p{L} / \P{L}
+
+\* the code points whose classes are written down here (subjects of patterns with class escapes stay among them):
+\* letters (ASCII, Latin-1, Latin Extended, Cyrillic, CJK), decimal digits, white space, the hyphen (punctuation)
+KnownLetters == (97..122) \cup (65..90) \cup {233, 243, 263, 322, 380, 1078, 20013}
+KnownDigits == 48..57
+KnownSpaces == {32, 9, 10}
+KnownCps == KnownLetters \cup KnownDigits \cup KnownSpaces \cup {45}
+InUc(c, cp) == CASE c = "w" -> cp \in KnownLetters \cup KnownDigits
+                 [] c = "d" -> cp \in KnownDigits
+                 [] c = "s" -> cp \in KnownSpaces
+                 [] OTHER -> cp \in KnownLetters
 
 \* ---- matching
 InSeq(c, q) == \E k \in 1..Len(q) : q[k] = c
 One(s, i, ok, caps) == IF i <= Len(s) /\ ok THEN <<[e |-> i + 1, caps |-> caps]>> ELSE <<>>
 
-RECURSIVE M(_, _, _, _), Thread(_, _, _, _), StarFrom(_, _, _, _)
+RECURSIVE M(_, _, _, _), Thread(_, _, _, _), StarFrom(_, _, _, _), RepTree(_, _, _)
+\* a{lo,hi} written with the other constructs: lo copies of a, then hi - lo nested greedy options  a(a(a)?)?
+RepTree(a, lo, hi) == IF lo > 0 THEN (IF hi = 1 THEN a ELSE [r |-> "cat", a |-> a, b |-> RepTree(a, lo - 1, hi - 1)])
+                      ELSE IF hi = 1 THEN [r |-> "opt", a |-> a]
+                      ELSE [r |-> "opt", a |-> [r |-> "cat", a |-> a, b |-> RepTree(a, 0, hi - 1)]]
 \* continue with r from every match of a list, in order
 Thread(ms, r, s, k) == IF k > Len(ms) THEN <<>> ELSE M(r, s, ms[k].e, ms[k].caps) \o Thread(ms, r, s, k + 1)
 \* greedy star: for each way the body matches (consuming something), the star again; finally the empty match
@@ -77,6 +104,8 @@ M(r, s, i, caps) ==
     [] r.r = "opt" -> M(r.a, s, i, caps) \o <<[e |-> i, caps |-> caps]>>
     [] r.r = "grp" -> LET ms == M(r.a, s, i, caps) IN
                       [k \in 1..Len(ms) |-> [e |-> ms[k].e, caps |-> [ms[k].caps EXCEPT ![r.g] = <<i, ms[k].e>>]]]
+    [] r.r = "rep" -> M(RepTree(r.a, r.lo, r.hi), s, i, caps)
+    [] r.r = "uc" -> One(s, i, i <= Len(s) /\ (InUc(r.c, s[i]) # r.neg), caps)
     [] r.r = "bol" -> IF i = 1 THEN <<[e |-> i, caps |-> caps]>> ELSE <<>>
     [] r.r = "eol" -> IF i = Len(s) + 1 THEN <<[e |-> i, caps |-> caps]>> ELSE <<>>
 
@@ -134,6 +163,7 @@ FoldRe(r) ==
     [] r.r = "rng" -> [r |-> "rng", lo |-> Fold(r.lo), hi |-> Fold(r.hi), neg |-> r.neg]
     [] r.r \in {"cat", "alt"} -> [r |-> r.r, a |-> FoldRe(r.a), b |-> FoldRe(r.b)]
     [] r.r \in {"star", "plus", "opt"} -> [r |-> r.r, a |-> FoldRe(r.a)]
+    [] r.r = "rep" -> [r |-> "rep", a |-> FoldRe(r.a), lo |-> r.lo, hi |-> r.hi]
     [] r.r = "grp" -> [r |-> "grp", a |-> FoldRe(r.a), g |-> r.g]
     [] OTHER -> r
 MatchesI(r, s) == Matches(FoldRe(r), FoldS(s))
